@@ -665,6 +665,10 @@ func (env *ExprEnv) fieldOf(x TV, name string) TV {
 		arr := "G_" + mangle(shortPkg(g.Owner)+"_"+g.Name)
 		gs := v.ghostSort(gty)
 		v.regArray(arr, fmt.Sprintf("(Array Int %s)", gs))
+		if v.eng.db.Stable[g.Owner+"."+g.Name] {
+			// a ghost field declared stable: no code writes it, it keeps its value across calls (only ghost assignments change it)
+			v.stableArrays[arr] = true
+		}
 		if env.heapNow() == nil {
 			fail("heap access in pure context")
 		}
@@ -1407,6 +1411,19 @@ func (env *ExprEnv) call(e *ast.CallExpr) TV {
 		k := env.coerce(env.eval(e.Args[1]), mt.Key(), v.sortOf(mt.Key()))
 		rv := v.rangeVisitedArray(mt)
 		return TV{T: fmt.Sprintf("(select %s %s)", v.rd(env.heapNow(), rv, m.T), k.T), Ty: types.Typ[types.Bool], Sort: "Bool"}
+	case "allocated":
+		// allocated(x): the object (or the backing array of the slice) exists now, i.e. lies below the allocation counter.
+		// True of every value a Go program can hold; as a contract clause it is proved like any other (loop invariants
+		// need it for references read from havocked containers: a later allocation is then known to be a different object)
+		x := env.eval(e.Args[0])
+		if env.heapNow() == nil {
+			fail("allocated() in a pure context")
+		}
+		t := x.T
+		if x.Sort == "Slice" {
+			t = fmt.Sprintf("(sl_arr %s)", x.T)
+		}
+		return TV{T: fmt.Sprintf("(< %s %s)", t, v.topOf(env.heapNow())), Ty: types.Typ[types.Bool], Sort: "Bool"}
 	case "fresh":
 		x := env.eval(e.Args[0])
 		if env.freshBase != "" {
